@@ -43,22 +43,34 @@ def sig_src(r, defs, self_=True):
     return ", ".join(ps)
 
 
-def build_model(r, defs, shared):
+def build_model(r, defs, shared, mname="tgt", ret=" -> float"):
+    g, cd = _build_model(r, defs, shared)
+    if mname == "tgt" and ret == " -> float":
+        return g, cd
+    src = g["__SRC__"].replace("def tgt(", f"def {mname}(").replace(") -> float: ...  #TGT", f"){ret}: ...")
+    g2 = {}
+    exec(src, g2)
+    g2["__SRC__"] = src
+    return g2, cd
+
+
+def _build_model(r, defs, shared):
     """Ev -> jets() -> Jet -> trks() -> Trk; the target method 'tgt' has the signature under test on every
     class when shared (with DIFFERENT defaults per class), else only where it is called."""
     other1 = tuple((d + 100) if isinstance(d, (int, float)) and not isinstance(d, bool) else
                    ((not d) if isinstance(d, bool) else d + "_other") for d in defs)
     other2 = tuple((d + 200) if isinstance(d, (int, float)) and not isinstance(d, bool) else
                    ((not d) if isinstance(d, bool) else d + "_third") for d in defs)
-    src = "from typing import Iterable\nfrom func_adl import func_adl_callable\n"
-    src += f"class Trk:\n    def q(self) -> float: ...\n    def tgt({sig_src(r, defs)}) -> float: ...\n"
+    src = "from typing import Any, Iterable\nfrom func_adl import func_adl_callable\n"
+    src += f"class Trk:\n    def q(self) -> float: ...\n    def tgt({sig_src(r, defs)}) -> float: ...  #TGT\n"
     src += f"class Jet:\n    def trks(self, w: int = 1) -> Iterable[Trk]: ...\n    def pt(self) -> float: ...\n" \
-           f"    def tgt({sig_src(r, other1 if shared else defs)}) -> float: ...\n"
+           f"    def tgt({sig_src(r, other1 if shared else defs)}) -> float: ...  #TGT\n"
     src += f"class Ev:\n    def jets(self, kind: str = 'def') -> Iterable[Jet]: ...\n    def a(self) -> float: ...\n" \
-           f"    def tgt({sig_src(r, other2 if shared else defs)}) -> float: ...\n"
+           f"    def tgt({sig_src(r, other2 if shared else defs)}) -> float: ...  #TGT\n"
     src += f"@func_adl_callable()\ndef fn({sig_src(r, defs, False)}) -> float: ...\n"
     g = {}
     exec(src, g)
+    g["__SRC__"] = src
     return g, {"Trk": defs, "Jet": other1 if shared else defs, "Ev": other2 if shared else defs, "fn": defs}
 
 
@@ -78,6 +90,7 @@ SITES = {
     "after": ("lambda {a}: {a}.jets().Select(lambda {b}: {b}.pt()).First() + {a}.tgt({ARGS})", "Ev"),
     "after2": ("lambda {a}: {a}.jets().Select(lambda {b}: {b}.trks().Select(lambda {c}: {c}.q()).First() + {b}.tgt({ARGS}))", "Jet"),
 }
+COLLVAR = "collvar"  # stage 1: Select(lambda e: e.jets()); stage 2: lambda js: js.Select(lambda j: js.First().tgt(ARGS))
 DICT_SITE = ("dict", "Jet")  # two stages: Select(lambda e: {'js': e.jets()}) then Select(lambda d: d.js.Select(lambda j: j.tgt(ARGS)))
 
 
@@ -107,12 +120,16 @@ class C07(Check):
             for (r, defs) in signatures(N):
                 n = r + len(defs)
                 for shape in call_shapes(n):
-                    for site in list(SITES) + ["dict"]:
+                    for site in list(SITES) + ["dict", "collvar"]:
                         for names in (("e", "j", "t"), ("e", "e", "e")):
                             if names[0] == names[1] and site in ("arg", "d3where"):
                                 continue  # these sites mention the outer parameter inside the inner lambda
                             for shared in (False, True):
                                 out.append((r, defs, shape, site, names, shared))
+                            if site in ("d1", "d2sel", "d3") and names[0] != names[1]:
+                                # the method is called like an attribute of the stream class, or has no usable return type
+                                for variant in ("name:value", "name:Where", "ret:none", "ret:Any"):
+                                    out.append((r, defs, shape, site, names, variant))
             return out
         return [Space(f"signatures<={N}", {"max_params": N, "sites": list(SITES) + ["dict"], "names": "distinct / re-used",
                                            "method name": "unique / shared by 3 classes"}, cases, runner="run_case")]
@@ -123,7 +140,16 @@ class C07(Check):
         r, defs, shape, site, names, shared = payload
         defs = tuple(defs)
         bind.reset_type_registries()
-        g, class_defs = build_model(r, defs, shared)
+        mname, ret = "tgt", " -> float"
+        if isinstance(shared, str):
+            kind, val = shared.split(":")
+            if kind == "name":
+                mname = val
+            else:
+                ret = "" if val == "none" else " -> Any"
+            g, class_defs = build_model(r, defs, False, mname, ret)
+        else:
+            g, class_defs = build_model(r, defs, shared)
         n = r + len(defs)
         npos, kws = shape
         # user arguments: distinct constants; the last one an expression of the enclosing lambda's parameter
@@ -139,9 +165,9 @@ class C07(Check):
         res = {"n": 1, "nt": [], "oc": [], "tags": {}, "viol": []}
         canon = repr(payload)
         # ---------------- expected binding by Python itself
-        tgt_cls = SITES[site][1] if site != "dict" else "Jet"
+        tgt_cls = SITES[site][1] if site not in ("dict", "collvar") else "Jet"
         want_defs = class_defs[tgt_cls]
-        f = g["fn"] if tgt_cls == "fn" else getattr(g[tgt_cls], "tgt")
+        f = g["fn"] if tgt_cls == "fn" else getattr(g[tgt_cls], mname)
         sig = inspect.signature(f)
         params = [p for p in sig.parameters.values() if p.name != "self"]
         given = {i: argsrc[i] for i in list(range(npos)) + list(kws)}
@@ -153,8 +179,11 @@ class C07(Check):
             if site == "dict":
                 s0 = DS(g["Ev"]).Select(f"lambda {a}: {{'js': {a}.jets(), 'n': {a}.a()}}")
                 s = s0.Select(f"lambda {b}: {b}.js.Select(lambda {c}: {c}.tgt({ARGS}))")
+            elif site == "collvar":
+                s0 = DS(g["Ev"]).Select(f"lambda {a}: {a}.jets()")
+                s = s0.Select(f"lambda js: js.Select(lambda {c}: js.First().tgt({ARGS}) + {c}.pt())")
             else:
-                lam = SITES[site][0].format(a=a, b=b, c=c, ARGS=ARGS)
+                lam = SITES[site][0].format(a=a, b=b, c=c, ARGS=ARGS).replace(".tgt(", f".{mname}(")
                 s = DS(g["Ev"]).Select(lam)
         except ValueError as e:
             res["oc"].append("ValueError")
@@ -172,7 +201,7 @@ class C07(Check):
             return res
         out = s.query_ast.args[1]
         calls = [x for x in ast.walk(out) if isinstance(x, ast.Call) and (
-            (isinstance(x.func, ast.Attribute) and x.func.attr == "tgt") or
+            (isinstance(x.func, ast.Attribute) and x.func.attr == mname) or
             (isinstance(x.func, ast.Name) and x.func.id == "fn"))]
         if len(calls) != 1:
             res["viol"].append({"kind": "call-site-lost", "canon": canon, "msg": ast.unparse(out)[:200]})
@@ -206,7 +235,7 @@ class C07(Check):
         # stream operators inside the lambda keep the user's arguments
         for x in ast.walk(out):
             if isinstance(x, ast.Call) and isinstance(x.func, ast.Attribute) and \
-                    x.func.attr in ("Select", "Where", "SelectMany", "First", "Count"):
+                    x.func.attr in ("Select", "Where", "SelectMany", "First", "Count") and x.func.attr != mname:
                 want_n = 0 if x.func.attr in ("First", "Count") else 1
                 if len(x.args) != want_n or x.keywords:
                     res["viol"].append({"kind": "stream-operator-arguments-changed", "canon": canon, "msg": ast.unparse(x)[:150]})
